@@ -18,7 +18,8 @@
    (0,0)(0,0)(0,0)(1.5,0) with d = 0.5 flattens to its bare chord although length/(2d) = 1.5 (C17_edge_count_refuted).
    EDGE COUNT for gentle cubics (Proofs/C16space.v): a cubic whose speed stays within a factor 2, at least d long, is cut into more than length/(2d)
    edges whenever 2.01 + 5e-4 L <= d (consecutive cuts are at most d + M/len + 4e-4 L of exact arc length apart).
-   NOT covered by a theorem: the edge-count clause for other curves (cusps, retracted handles, quadratics -- whose flatten uses the uniform sampler) -- searched only;
+   EDGE COUNT for ALL quadratics (Proofs/C10path.v): INR(#edges) - 1 <= length/d < INR(#edges) for a quadratic at least d long, hence more than length/(2d) edges.
+   NOT covered by a theorem: the edge-count clause for cubics with cusps or retracted handles -- searched only;
    "the original is not modified": the model is purely functional and cannot express mutation -- the search compares
    repr(receiver) before and after and checks object identity for lines. *)
 
@@ -26,6 +27,7 @@ From Coq Require Import PrimFloat.
 From Coq Require Import ZArith List Bool Reals Lra Permutation Sorted.
 From BZ Require Import Base.Ops Gen.Point Gen.Line Gen.Quad Gen.Cubic Gen.Sample Hand.Sample Hand.Shoelace Proofs.C16 Proofs.C17 Proofs.Bridge2.
 Import ListNotations.
+From BZ Require Proofs.C10path.
 From BZ Require Proofs.C04 Proofs.C10flat Proofs.C16space.
 From BZ Require Gen.PathOps Proofs.Bridge5.
 Open Scope R_scope.
@@ -77,6 +79,15 @@ Proof. exact @C16space.arch_gentle. Qed.
 Theorem C17_arch100_flatten_gentle :
   exists es : list edge, Cubic_flatten ROps 256 (C10flat.arch 100) 8 = Ok es /\ Rabs (Cubic_area ROps (C10flat.arch 100) - C10.sum_line_areas (map fst es)) <= 10 * 200 /\ Cubic_length ROps (C10flat.arch 100) / (2 * 8) < INR (length es).
 Proof. exact @C16space.arch100_flatten_gentle. Qed.
+Theorem C17_quad_flatten_edge_count_exact :
+  forall (cap : nat) (q : seg3 R) (d : R) (es : list edge), 0 < d -> ~ Quad_length ROps q < d -> Quad_flatten ROps cap q d = Ok es -> INR (length es) - 1 <= Quad_length ROps q / d < INR (length es).
+Proof. exact @C10path.quad_flatten_edge_count_exact. Qed.
+Theorem C17_quad_flatten_edge_count :
+  forall (cap : nat) (q : seg3 R) (d : R) (es : list edge), 0 < d -> ~ Quad_length ROps q < d -> Quad_flatten ROps cap q d = Ok es -> Quad_length ROps q / (2 * d) < INR (length es).
+Proof. exact @C10path.quad_flatten_edge_count. Qed.
+Theorem C17_qarch_flatten_gentle :
+  exists es : list edge, Quad_flatten ROps 64 C10path.qarch 8 = Ok es /\ Rabs (Quad_area ROps C10path.qarch - C10.sum_line_areas (map fst es)) <= 4002 / 1000 * C10flat.quad_arclen C10path.qarch 0 1 /\ Quad_length ROps C10path.qarch / 8 < INR (length es) /\ Quad_length ROps C10path.qarch / (2 * 8) < INR (length es).
+Proof. exact @C10path.qarch_flatten_gentle. Qed.
 
 Print Assumptions C17_curve_flatten_spec.
 Print Assumptions C17_quad_flatten_uniform.
@@ -93,3 +104,6 @@ Print Assumptions C17_gentle_cubic_flatten_fine.
 Print Assumptions C17_gentle_cubic_edge_count.
 Print Assumptions C17_arch_gentle.
 Print Assumptions C17_arch100_flatten_gentle.
+Print Assumptions C17_quad_flatten_edge_count_exact.
+Print Assumptions C17_quad_flatten_edge_count.
+Print Assumptions C17_qarch_flatten_gentle.
